@@ -85,14 +85,9 @@ func (it Iter) Methods() iter.Seq[string] {
 // This function is safe for concurrent use by multiple goroutine and while mutation on routes are ongoing.
 func (it Iter) Routes(methods iter.Seq[string], pattern string) iter.Seq2[string, *Route] {
 	return func(yield func(string, *Route) bool) {
-		c := it.tree.ctx.Get().(*cTx)
-		defer c.Close()
-		host, path := SplitHostPath(pattern)
 		for method := range methods {
-			c.resetNil()
-			n, tsr := it.root.lookup(it.tree, method, host, path, c, true)
-			if n != nil && !tsr && n.route.pattern == pattern {
-				if !yield(method, n.route) {
+			if rte := it.root.route(method, pattern); rte != nil {
+				if !yield(method, rte) {
 					return
 				}
 			}
